@@ -8,7 +8,7 @@ from .. import AnalysisError
 from ..astutil import Deps, is_name, unwrap
 from ..cfg import CFG
 from ..engine import Analysis
-from ..kinds import NOVALUE, both, forwards_varargs, normal_only, scenario, strict, vararg_names
+from ..kinds import NOVALUE, both, classify_handler, forwards_varargs, normal_only, scenario, strict, vararg_names
 from ..loader import FunctionInfo, dotted, parent, stmt_text
 
 ASSUMPTIONS = [
@@ -115,6 +115,10 @@ def check(an: Analysis) -> None:
             ob.fail(wrap, None, "timeout() does not pass the timeout on to the wrapper")
         else:
             ob.inst(wrap, ctor[0], "timeout plumbing")
+        from ..kinds import unwrapped_returns
+
+        for r_ in unwrapped_returns(an, wrap, {prog.cls("helpers.timeouted._AsyncTimeout").qualname}):
+            ob.fail(wrap, r_, "timeout() hands some callables back without the timeout wrapper (asynchronous callable objects, other wrappers of this library, partials are not coroutine *functions*): no deadline applies to them")
 
     # helper: what a closure's name denotes (own parameter shadows the outer variable)
     def role_of(fn: FunctionInfo, e: ast.AST) -> set[str]:
@@ -267,6 +271,17 @@ def check(an: Analysis) -> None:
             ob.fail(f, r.ast, "__call__ does not return the awaited result future")
     if not rets:
         ob.fail(f, None, "__call__ returns nothing")
+    # the outcome of the result future is the caller's outcome at once: nothing is waited for after it (on any path, incl. the
+    # exceptional ones) and no handler turns it into something else
+    fut_awaits = [n for n in g.nodes if n.kind == "await" and val_is(n.ast.value, FUT) and not val_is(n.ast.value, TASK)]  # type: ignore[union-attr]
+    for fa in fut_awaits:
+        later = g.search([t for t, _lab in fa.succ], lambda n: n.suspends and n is not fa, include_start=True)
+        if later is not None:
+            ob.fail(f, later[-1].ast or later[-1].stmt, "after the result future completed the caller is kept waiting for something else: TimeoutError / the result is reported late (or never, for a function that ignores cancellation)", CFG.show_path([fa] + later))
+        for h in [t for t, lab in fa.succ if lab == "exc" and t.kind == "handler"]:
+            for kind, node, path in classify_handler(g, h.ast):  # type: ignore[arg-type]
+                if kind != "reraise":
+                    ob.fail(f, h.ast, f"a handler around the await of the result future {kind}s: the caller does not get the future's own outcome", CFG.show_path(path))
 
 
 def _ancestors(n: ast.AST):
